@@ -227,6 +227,43 @@ def _explore(out, tier, seed, facts, replay):
                     pass
                 except Exception as e:
                     out.violation("dim-agg-exception", "Data(dim_agg_length=%r): input %d after input %d raised %r" % (h, k2_, kin_, e), {"dataset": ds, "h": h, "agg": aname})
+    # two inputs on DIFFERENT lead-time grids (same length): each input's observations and forecasts are windowed on its own grid,
+    # whichever input is asked first
+    for rep_ in range(4 if tier == "quick" else 30):
+        grids_ = [[0.0, 6.0, 12.0, 18.0], sorted(rng.sample([0.0, 3.0, 6.0, 9.0, 12.0, 15.0, 18.0, 21.0], 4))]
+        if grids_[0] == grids_[1]:
+            grids_[1] = [0.0, 3.0, 9.0, 18.0]
+        h_ = rng.choice([4.0, 7.0, 10.0])
+        an_ = rng.choice(["sum", "mean", "max"])
+        specs_ = []
+        for g_ in grids_:
+            common_ = [0.0, 18.0]
+            specs_.append({"times": [0], "leads": g_, "locs": [[1, 0.0, 0.0, 0.0]],
+                           "fields": {"obs": [[[rng.randint(0, 16) / 2.0] for _ in g_]], "fcst": [[[rng.randint(0, 16) / 2.0] for _ in g_]]}})
+        def windowed_(spec_, f_):
+            out_ = {}
+            for b_, lb_ in enumerate(spec_["leads"]):
+                idx_ = [i_ for i_, li_ in enumerate(spec_["leads"]) if lb_ - h_ < li_ <= lb_]
+                out_[lb_] = oagg(an_, [spec_["fields"][f_][0][i_][0] for i_ in idx_])
+            return out_
+        shared_ = sorted(set(grids_[0]) & set(grids_[1]))
+        for order_ in ((0, 1), (1, 0)):
+            d_ = verif.data.Data([datagen.mem_input(sp_, "g%d" % i_) for i_, sp_ in enumerate(specs_)], dim_agg_length=h_, dim_agg_axis=verif.axis.Leadtime(), dim_agg_method=aggs[an_])
+            for k_ in order_:
+                nf += 1
+                try:
+                    o_, f_ = d_.get_scores([datagen.field_obj("obs"), datagen.field_obj("fcst")], k_)
+                    got_ = ([float(x_) for x_ in np.asarray(o_).flatten()], [float(x_) for x_ in np.asarray(f_).flatten()])
+                except Exception as e:
+                    got_ = "exception %s: %s" % (type(e).__name__, e)
+                want_ = ([windowed_(specs_[k_], "obs")[l_] for l_ in shared_], [windowed_(specs_[k_], "fcst")[l_] for l_ in shared_])
+                if isinstance(got_, str) or not (common.close_lists(got_[0], want_[0], 1e-9) and common.close_lists(got_[1], want_[1], 1e-9)):
+                    out.violation("dim-agg-own-grid", "-T %g -Tagg %s, inputs on lead-time grids %r and %r asked in the order %r: input %d gives (obs, fcst) = %r at the common lead times %r; windows on ITS OWN grid give %r"
+                                  % (h_, an_, grids_[0], grids_[1], list(order_), k_, got_, shared_, want_), {"inputs": specs_, "h": h_, "agg": an_, "order": list(order_)})
+                    break
+            else:
+                continue
+            break
     # ensemble members are pre-aggregated too: probabilities and quantiles derived from the ensemble under -T
     import verif.field
     for _ in range(10 if tier == "quick" else 100):
